@@ -40,7 +40,10 @@ type C10Sc struct {
 
 const min5 = int64(5 * time.Minute)
 
-var c10Advances = []int64{0, 1, int64(time.Second), min5 / 2, min5 - 1, min5, min5 + 1, 2*min5 - 1, 2 * min5, 2*min5 + 1, 3*min5 - 1, 3 * min5, 3*min5 + 1, int64(time.Hour)}
+var c10Advances = []int64{0, 1, int64(time.Second), min5 / 2, min5 - 1, min5, min5 + 1, 2*min5 - 1, 2 * min5, 2*min5 + 1, 3*min5 - 1, 3 * min5, 3*min5 + 1, int64(time.Hour),
+	// long jumps: whole numbers of rotation intervals that are powers of two (and a little more), so that a
+	// counter of any narrower width than the clock's comes round to the same value
+	256 * min5, 256*min5 + min5/2, 65536 * min5, 65536*min5 + 9*int64(time.Minute), 2 * 65536 * min5, (1 << 24) * min5}
 
 func genC10(t *rapid.T) C10Sc {
 	sc := C10Sc{Dual: rapid.Bool().Draw(t, "dual"), PeerStore: rapid.Bool().Draw(t, "peerstore")}
@@ -74,7 +77,13 @@ func genC10(t *rapid.T) C10Sc {
 			issued++
 		case roll < 5:
 			op.Kind = "advance"
-			op.Advance = rapid.SampledFrom(c10Advances).Draw(t, "op.adv")
+			// half of the advances are short (under one rotation interval), so that chains of uses a few
+			// minutes apart reach well past the 15-minute bound; the rest is drawn from the whole list
+			if rapid.Bool().Draw(t, "op.adv.short") {
+				op.Advance = c10Advances[uniformInt(t, 6, "op.adv")]
+			} else {
+				op.Advance = c10Advances[uniformInt(t, len(c10Advances), "op.adv")]
+			}
 		default:
 			op.Kind = "use"
 			op.Method = rapid.SampledFrom([]string{"announce_peer", "put"}).Draw(t, "op.method")
@@ -91,6 +100,17 @@ func genC10(t *rapid.T) C10Sc {
 			}
 		}
 		sc.Ops = append(sc.Ops, op)
+	}
+	if uniformInt(t, 5, "chain") == 0 {
+		// a client that keeps using one token every few minutes, well past its lifetime
+		ip, port := uniformInt(t, nip, "chain.ip"), genPort(t, "chain.port")
+		sc.Ops = append(sc.Ops, C10Op{Kind: "issue", IP: ip, Port: port, Method: "get"})
+		ref := issued
+		issued++
+		for i, n := 0, 4+uniformInt(t, 6, "chain.len"); i < n; i++ {
+			sc.Ops = append(sc.Ops, C10Op{Kind: "advance", Advance: pick(t, "chain.adv", min5/2, min5-1, min5-1, int64(time.Minute))},
+				C10Op{Kind: "use", IP: ip, Port: port, Method: pick(t, "chain.method", "announce_peer", "put"), Ref: ref, Mut: "exact"})
+		}
 	}
 	return sc
 }
@@ -228,7 +248,9 @@ func runC10(sc C10Sc, c *kit.Case) *kit.Violation {
 		switch op.Kind {
 		case "advance":
 			clockMu.Lock()
-			now = now.Add(time.Duration(op.Advance))
+			if next := now.Add(time.Duration(op.Advance)); next.Year() < 2250 { // (UnixNano is defined up to 2262)
+				now = next
+			}
 			clockMu.Unlock()
 		case "issue":
 			tok, v := issue(sv, op.IP, op.Port, op.Method)
